@@ -1114,7 +1114,14 @@ impl TwoFloat {
             // Close to -1 the low word changes 1 + x by a large relative amount, so
             // log1p(hi) is a poor starting point for the iteration below (and is -inf
             // for hi == -1). The sum 1 + x is accurate there, so use ln directly.
-            (1.0 + self).ln()
+            let s = 1.0 + self;
+            if s.hi < f64::MIN_POSITIVE {
+                // ln iterates on exp(-ln s), which overflows for subnormal s:
+                // rescale by an exact power of two first
+                (s * hexf64!("0x1.0p128")).ln() - 128.0 * LN_2
+            } else {
+                s.ln()
+            }
         } else {
             let mut x = Self::from(libm::log1p(self.hi));
             let mut e = x.exp_m1();
